@@ -1,10 +1,24 @@
 // ASSUMED CONTRACTS for serde_json (+ the derive-generated Serialize/Deserialize of
-// index::SerializableMetadata)
+// index::SerializableMetadata — see the `JsonSer`/`JsonDe` impls woven next to the struct)
 pub mod serde_json {
     use vstd::prelude::*;
     #[verifier::external_body]
     pub struct Error { e: u8 }
     /// an arbitrary JSON value; nothing about its structure is needed
+    pub enum Value { Null, Other(ValueOpaque) }
     #[verifier::external_body]
-    pub struct Value { v: u8 }
+    pub struct ValueOpaque { v: u8 }
+    /// what `serde_json::to_string(&x)` produces for x: the JSON text
+    pub trait JsonSer { spec fn json(&self) -> Seq<char>; }
+    /// what `serde_json::from_str::<Self>(text)` produces
+    pub trait JsonDe: Sized { spec fn from_json(text: Seq<char>) -> Option<Self>; }
+    /// ASSUMED: serialising a struct of strings/integers/Value/bytes cannot fail
+    #[verifier::external_body]
+    pub fn to_string<T: JsonSer>(v: &T) -> (r: ::std::result::Result<String, Error>)
+        ensures r is Ok, r->Ok_0@ == v.json()
+    { unimplemented!() }
+    #[verifier::external_body]
+    pub fn from_str<T: JsonDe>(s: &str) -> (r: ::std::result::Result<T, Error>)
+        ensures r is Ok <==> T::from_json(s@) is Some, r is Ok ==> r->Ok_0 == T::from_json(s@)->Some_0
+    { unimplemented!() }
 }
